@@ -24,7 +24,7 @@ RULE = (
     "variables for the request or the answer is a product / needs interpolation"
 )
 SPACE = {
-    "quick": "grid A (X:{C,L}, Y:{C,O}): all registries of <= 3 of 13 pool entries (1-D and non-separable 2-D single-axis metrics; one dataset variable entered for X and for Y) (both list orders for pairs) x 6 array layouts x 6 requests; grid B (X:{C,L,R}, Y:{C,L}, Z:{C,O}): all registries of <= 3 of 11 variables x 3 array positions x 15 ordered requests; derived operations on every registry of grid A that answers; on grid A, after all queries one variable is overwritten by a twin on the same Grid object and every query is repeated",
+    "quick": "grid A (X:{C,L}, Y:{C,O}): all registries of <= 3 of 14 pool entries (1-D and non-separable 2-D single-axis metrics; one dataset variable entered for X and for Y) (both list orders for pairs) x 6 array layouts x 6 requests; grid B (X:{C,L,R}, Y:{C,L}, Z:{C,O}): all registries of <= 3 of 11 variables x 3 array positions x 15 ordered requests; derived operations on every registry of grid A that answers; on grid A, after all queries one variable is overwritten by a twin on the same Grid object and every query is repeated",
     "thorough": "registries of <= 4 variables on both grids, all list orders",
 }
 BOUNDS = {"quick": {"max_vars": 3}, "thorough": {"max_vars": 4}}
@@ -42,7 +42,9 @@ GRIDS = {
                     # single-axis metrics that vary along both axes (not separable)
                     (("X",), dict(X="center", Y="center"), "2d"), (("Y",), dict(X="center", Y="center"), "2d"), (("X",), dict(X="left", Y="outer"), "2d"),
                     # the *same* dataset variable as pool entry 9 (an isotropic spacing) registered for the other axis as well
-                    (("Y",), dict(X="center", Y="center"), "alias", 9)],
+                    (("Y",), dict(X="center", Y="center"), "alias", 9),
+                    # a twin of entry 4 (same axes, same positions) stored with its dimensions in the other order
+                    (("X", "Y"), dict(Y="center", X="center"), "tr")],
               arrays=[("xc", "yc"), ("xl", "yc"), ("xc", "yo"), ("xl", "yo"), ("yc", "xc"), ("t", "yo", "xl")],
               requests=[("X",), ("Y",), ("X", "Y"), ("Y", "X"), "X", ["Y", "X"]]),
     "B": dict(lay={"X": ("center", "left", "right"), "Y": ("center", "left"), "Z": ("center", "outer")}, ns={"X": 2, "Y": 2, "Z": 2},
@@ -134,7 +136,7 @@ def arr_of(mg, dims, seed, dt=0):
     return xr.DataArray(a.astype(dtype), dims=dims, name="q")
 
 
-TWINS = {"A": {0: 7, 3: 8}}  # pool index -> index of another variable for the same slot
+TWINS = {"A": {0: 7, 3: 8, 4: 13}}  # pool index -> index of another variable for the same slot
 
 
 def overwritten(gname, order, g=None, reg=None):
@@ -288,6 +290,28 @@ def check_derived(rec, gname, order, ai, ri, seed, g=None, reg=None):
         except Exception as e:
             rec.violation("integrate", "raise:" + exc_sig(e), case, "array", f"{type(e).__name__}: {e}"[:200])
             return
+        # metric_weighted given per axis in a multi-axis call == the single-axis calls one after another
+        if len(axes) == 2:
+            a1, a2 = axes
+            for op in ("diff", "interp"):
+                try:
+                    with warnings.catch_warnings():
+                        warnings.simplefilter("ignore")
+                        s1 = getattr(g, op)(arr, a1, boundary="extend", metric_weighted=(a1,))
+                        s2 = getattr(g, op)(s1, a2, boundary="extend", metric_weighted=(a2,))
+                except Exception:
+                    break  # a single-axis metric is missing or a shift is undefined: nothing to compare
+                try:
+                    with warnings.catch_warnings():
+                        warnings.simplefilter("ignore")
+                        both = getattr(g, op)(arr, [a1, a2], boundary="extend", metric_weighted={a1: (a1,), a2: a2})
+                    rec.calls += 3
+                    if set(both.dims) != set(s2.dims) or not np.allclose(both.transpose(*s2.dims).values, s2.values, rtol=1e-12):
+                        rec.violation("metric_weighted", f"{op}-per-axis-mapping-differs-from-one-axis-at-a-time", case, s2.values, both.values)
+                        return
+                except Exception as e:
+                    rec.violation("metric_weighted", "raise-per-axis-mapping:" + exc_sig(e), case, "array", f"{type(e).__name__}: {e}"[:200])
+                    return
         # derivative and metric_weighted along a single axis whose shift is defined
         if len(axes) == 1:
             ax = axes[0]
